@@ -31,6 +31,16 @@ def bases(tier):
     if tier != "quick":
         for c in itertools.product(KINDS5, repeat=4):
             out.append(c)
+    # permutations hidden inside a nested struct
+    inners = [(U(3), I(6)), (U(3), I(6), U(8)), (U(8), U(8), U(8)), (I(5), F32, enum_with_max(5))]
+    if tier != "quick":
+        inners += [(U(1), U(2), U(3), U(4)), (STR, U(3), I(6))]
+    for inner in inners:
+        for wrap in ("plain", "arr", "opt", "dyn", "deep"):
+            if any(t == STR for t in inner) and wrap in ("plain", "arr", "deep"):
+                pass
+            for extra in (U(3), I(8)):
+                out.append(("NESTED", wrap, inner, extra))
     return out
 
 
@@ -54,10 +64,30 @@ def make_worker(tier):
         decls = []
         groups = []  # (base index, combo, [(twin name, perm)], can?)
         for idx, combo in chunk:
+            twins = []
+            if combo and combo[0] == "NESTED":
+                # the permutation happens one level down: the twins differ only in the declaration order
+                # of a nested struct's fields (wrapped plainly, in an array, in an optional, two levels deep)
+                _tag, wrap, inner, extra = combo
+                n = len(inner)
+                ifields = [("n%d" % i, IDS[i], inner[i]) for i in range(n)]
+                combo = tuple(inner) + (extra,)
+                can = wrap in ("plain", "arr", "deep") and all(is_fixed(t) for t in inner)
+                for pi, perm in enumerate(itertools.permutations(range(n))):
+                    name = "S%dp%d" % (idx, pi)
+                    ist = ("st", tuple(ifields[i] for i in perm))
+                    wt = {"plain": ist, "arr": Arr(ist, 2), "opt": Opt(ist), "dyn": Dyn(ist), "deep": ("st", (("m", 3, ist), ("z", 1, U(2))))}[wrap]
+                    st = ("st", (("w", 4, wt), ("k", 7, extra)))
+                    can = can and (shapes.fixed_width(st) or 99) <= 64
+                    decls.append(struct_decl(name, st, h))
+                    if can:
+                        decls.append(("impl", "can", name, None, (("id", (idx * 24 + pi) % 2048), ("device", "d%d" % idx)), ()))
+                    twins.append((name, perm, st))
+                groups.append((idx, combo, twins, can))
+                continue
             n = len(combo)
             fields = [("f%d" % i, IDS[i], combo[i]) for i in range(n)]
             can = all(is_fixed(t) for t in combo) and sum(shapes.fixed_width(t) for t in combo) <= 64
-            twins = []
             for pi, perm in enumerate(itertools.permutations(range(n))):
                 name = "S%dp%d" % (idx, pi)
                 st = ("st", tuple(fields[i] for i in perm))
@@ -218,7 +248,7 @@ def make_worker(tier):
                     S.add("outcomes", "cpp-%s-differs" % which)
                     S.violation("C15.cpp", "C15.cpp/%s-value-depends-on-declaration-order/%s" % (which, cc), dict(inp0, text=snippet(idx), struct=name, permutation=list(perm), value=v), expected=v, actual=got if got is not None else a)
                 continue
-            if perm == tuple(range(len(combo))):
+            if perm == tuple(range(len(perm))):
                 ref[(idx, k, which)] = a.get("bytes")
                 if a.get("bytes") is None and (idx, which, "base") not in flagged:
                     flagged.add((idx, which, "base"))
